@@ -499,6 +499,7 @@ def strand_records(s: Structure, st, index):
     n = len(st["seq"])
     meta = dict(kind="na", id=st["id"], seq=list(st["seq"]), n=n, dna=dna, p5=st.get("p5", True),
                 start=st.get("start", 1), index=index, phosphates=0)  # fmt: skip
+    star_counter = 0
     for i, b in enumerate(st["seq"]):
         t = RES[NA_TEMPLATE[b]]
         if b == "T":
@@ -510,7 +511,14 @@ def strand_records(s: Structure, st, index):
         th = np.radians(36.0 * i)
         Rz = np.array([[np.cos(th), -np.sin(th), 0], [np.sin(th), np.cos(th), 0], [0, 0, 1]])
         has_p = False
-        for k, v in t["atoms"].items():
+        order = list(t["atoms"].items())
+        if st.get("shuffle"):
+            # atoms of a nucleotide listed in another order (e.g. sugar before / after the base)
+            order.sort(key=lambda kv: (hash_name(kv[0], st["shuffle"] + i), kv[0]))
+        for k, v in order:
+            if st.get("jitter"):
+                # coordinates off the ideal template by a few hundredths of an Angstrom (deterministic)
+                v = v + st["jitter"] * (np.array([hash_name(k, 3 * i + c + 1) % 2001 for c in range(3)]) / 1000.0 - 1.0)
             if not topo.heavy(k) and st.get("hyd", "none") == "none":
                 continue
             if not topo.heavy(k):
@@ -522,8 +530,16 @@ def strand_records(s: Structure, st, index):
             if k == "P":
                 has_p = True
             kk = {"O1P": "OP1", "O2P": "OP2"}.get(k, k) if st.get("newnames") else k
+            canon_name = kk
+            if st.get("stars"):
+                # pre-remediation names of the sugar atoms (O5* ...) and of the thymine methyl (C5M)
+                inv = [a for a, c in t["alts"].items() if c == k and topo.heavy(c)]
+                if inv:
+                    star_counter += 1
+                    if star_counter % st["stars"] == 0:
+                        kk = inv[0]
             xyz = R @ (Rz @ v + np.array([0.0, 0.0, 6.5 * i])) + shift
-            s.add(name=kk, resn=rn, chain=st["id"], seq=meta["start"] + i, xyz=xyz,
+            s.add(name=kk, canon=canon_name, resn=rn, chain=st["id"], seq=meta["start"] + i, xyz=xyz,
                   group=("na", index, i))  # fmt: skip
         if has_p and i > 0:
             meta["phosphates"] += 1
